@@ -64,7 +64,7 @@ def kernel_src(op, ptag, pcxx, itag):
     return "K uint64_t %s(uint64_t base, uint64_t p, %s) { %s %s %s }" % (nm, decl, head, prep, expr)
 
 
-def check_arith(ctx, op, ptag, gsize, itag, log):
+def check_arith(ctx, op, ptag, gsize, itag, log, wide=False):
     k = "k_%s_%s_%s" % (op, ptag, itag or "x")
     base = ctx.sandbox_base(log)
     size = 1 << log
@@ -79,10 +79,11 @@ def check_arith(ctx, op, ptag, gsize, itag, log):
     else:
         it = WRAPPED.get(itag) or IDX[itag]
         if itag == "tvint":
+            nb = 8 if wide else 4          # B32W: the guest's int is 64 bits wide, the index is narrowed on the way out
             cell = ctx.sym("cell", 64)
-            ctx.assume(z3.UGE(cell, base), z3.ULE(cell - base, BV(size - 4, 64)))
+            ctx.assume(z3.UGE(cell, base), z3.ULE(cell - base, BV(size - nb, 64)))
             mem0 = ctx.eng.initial_memory()
-            n = z3.Concat(*[z3.Select(mem0, cell + BV(i, 64)) for i in reversed(range(4))])
+            n = z3.Concat(*[z3.Select(mem0, cell + BV(i, 64)) for i in reversed(range(nb))])
             args.append(cell)
         else:
             n = ctx.sym("n", it.bits)
@@ -106,9 +107,15 @@ def check_arith(ctx, op, ptag, gsize, itag, log):
             if op in ("preinc", "predec"):
                 ctx.require(q, z3.And(lg[0][1] == q.ret, lg[0][2] == 1) if lg else z3.BoolVal(False), "pre-increment/decrement returns the updated object itself")
         elif q.status == "abort":
-            ctx.require(q, z3.Not(inside), "aborts only when p is null or the exact address is outside the sandbox")
+            if wide:
+                fits = z3.And(n >= BV(-(1 << 31), 64), n <= BV((1 << 31) - 1, 64))
+                ctx.require(q, z3.Or(z3.Not(inside), z3.Not(fits)), "aborts only when p is null, the exact address is outside the sandbox, or the guest's index does not fit the application's int")
+            else:
+                ctx.require(q, z3.Not(inside), "aborts only when p is null or the exact address is outside the sandbox")
     ctx.only(paths, "ret", "abort")
     ctx.expect(paths, ret=1, abort=1)
+    if wide:
+        return
     # translator validation vectors
     b0 = 0x300000000 if log == 32 else 0x300000000 + (5 << log)
     vecs = []
@@ -245,6 +252,13 @@ def jobs(tier, seed):
     out.append(Job("C05_B32_cfg_noexc", "\n".join(csrc) + "\n", cchk, flags=["-fno-exceptions", "-DRLBOX_USE_EXCEPTIONS"]))
     out.append(Job("C05_B32_ext", C.PRELUDE + "using S = B32;\n" + EXT_SRC,
                    [dict(name="B32 " + k, fn=check_ext, kw=dict(k=k, **kw)) for k, kw in ext_checks], flags=["-fno-exceptions", "-std=gnu++17"], native=False))
+    # B32W: an index that lives in sandbox memory as a 64-bit guest int (narrowed to the application's int before use)
+    wsrc = [C.PRELUDE, '#include "verif_structs.hpp"', "using S = B32W;"]
+    wchk = []
+    for op, ptag, pcxx, gsize in (("add", "char", "char", 1), ("sub", "long", "long", 4), ("idx", "char", "char", 1), ("addridx", "long", "long", 4)):
+        wsrc.append(kernel_src(op, ptag, pcxx, "tvint"))
+        wchk.append(dict(name="B32W %s %s idx=sandbox-resident 64-bit int" % (op, ptag), fn=check_arith, kw=dict(op=op, ptag=ptag, gsize=gsize, itag="tvint", log=32, wide=True)))
+    out.append(Job("C05_B32W_tvint", "\n".join(wsrc) + "\n", wchk, flags=["-fno-exceptions"], native=False))
     backends = [("B32", 32, 4)] + ([("B16", 16, 2)] if tier == "thorough" else [])
     for sbx, log, pb in backends:
         for ptag, pcxx, gsize in pointees(pb):
